@@ -157,16 +157,33 @@ Theorem C06_trim_all_mirrorable : forall out imcu off full,
 Proof. exact trim_edge_all_mirrorable. Qed.
 Print Assumptions C06_trim_all_mirrorable.
 
-(* (6) quantisation tables and sampling factors follow the operation, any options *)
+(* (6) jpeg_copy_critical_parameters' table rule.  The source image records, per component, the
+   table LATCHED at its first scan and, per slot, the final content (a DQT between scans may
+   redefine a slot).  Accepted => every destination component refers to the same slot, that
+   slot of the destination holds the component's own latched table (transposed iff the operation
+   transposes); sampling factors follow.  A component whose latched table is no longer in its
+   slot => the request is refused. *)
 Theorem C06_tables_follow : forall im o im',
   transform im o = inr im' ->
   Forall (fun c => List.length (c_q c) = 64%nat) (i_comps im) ->
+  quant_ok im = true /\
   exists nc, (nc <= List.length (i_comps im))%nat /\
-    Forall2 (fun c c' => c_q c' = spec_q (xo_op o) (c_q c) /\
+    Forall2 (fun c c' => c_tq c' = c_tq c /\ c_q c' = spec_q (xo_op o) (c_q c) /\
+                         slot_of (i_slots im') (c_tq c') = c_q c' /\
                          (c_hs c', c_vs c') = dst_samp (Z.of_nat nc) (transposes (xo_op o)) c)
             (firstn nc (i_comps im)) (i_comps im').
 Proof. exact transform_tables_follow. Qed.
 Print Assumptions C06_tables_follow.
+
+Theorem C06_slot_reuse_refused : forall im o p,
+  request_workspace im o = inr p -> quant_ok im = false -> transform im o = inl EQuantReuse.
+Proof. exact transform_refuses_reuse. Qed.
+Print Assumptions C06_slot_reuse_refused.
+
+Theorem C06_quant_ok_false_iff : forall im,
+  quant_ok im = false <-> exists c, In c (i_comps im) /\ c_q c <> slot_of (i_slots im) (c_tq c).
+Proof. exact quant_ok_false_iff. Qed.
+Print Assumptions C06_quant_ok_false_iff.
 
 Theorem C06_transpose_q : forall q, List.length q = 64%nat ->
   transpose_q q = map (fun k => nth (tr_idx k) q 0) (seq 0 64).
@@ -236,3 +253,7 @@ Proof. exact ex_image2_transforms. Qed.
 
 Example C06_ex_geometry : geom_ok (mkgeom 2 2 2 3 5 40 29 2 2 1 0) /\ inplace_ok (mkgeom 2 2 3 4 5 40 29 2 2 1 0).
 Proof. exact ex_geom. Qed.
+
+(* three components on slot 0, slot redefined after the first one was latched: refused for every op *)
+Example C06_ex_slot_reuse : forall op, transform ex_image3 (plain op) = inl EQuantReuse.
+Proof. exact ex_image3_refused. Qed.
